@@ -126,6 +126,8 @@ const (
 	cvAbsent cvKind = iota
 	cvBad
 	cvBytes
+	cvNoValue   // CipherData present but empty
+	cvReference // CipherData holding a CipherReference instead of a CipherValue (schema-legal)
 )
 
 type certKind int
@@ -148,6 +150,7 @@ type eel struct {
 	cvWS    bool // surround the base64 with white space (TrimSpace is applied by the code)
 	inner   *eel
 	prefix  bool // render with xenc:/ds: prefixes or in default namespaces
+	alt     bool // with prefix: use the prefixes enc: / dsig: instead (a peer is free to choose its prefixes)
 }
 
 func strp(s string) *string { return &s }
@@ -183,11 +186,14 @@ func (e *eel) xml(tag string) *etree.Element {
 	x, d := "", ""
 	if e.prefix {
 		x, d = "xenc:", "ds:"
+		if e.alt {
+			x, d = "enc:", "dsig:"
+		}
 	}
 	el := etree.NewElement(x + tag)
 	if e.prefix {
-		el.CreateAttr("xmlns:xenc", "http://www.w3.org/2001/04/xmlenc#")
-		el.CreateAttr("xmlns:ds", "http://www.w3.org/2000/09/xmldsig#")
+		el.CreateAttr("xmlns:"+strings.TrimSuffix(x, ":"), "http://www.w3.org/2001/04/xmlenc#")
+		el.CreateAttr("xmlns:"+strings.TrimSuffix(d, ":"), "http://www.w3.org/2000/09/xmldsig#")
 	} else {
 		el.CreateAttr("xmlns", "http://www.w3.org/2001/04/xmlenc#")
 	}
@@ -221,7 +227,12 @@ func (e *eel) xml(tag string) *etree.Element {
 			}
 		}
 	}
-	if e.cv != cvAbsent {
+	if e.cv == cvNoValue || e.cv == cvReference {
+		cd := el.CreateElement(x + "CipherData")
+		if e.cv == cvReference {
+			cd.CreateElement(x+"CipherReference").CreateAttr("URI", "http://example.org/cipher.bin")
+		}
+	} else if e.cv != cvAbsent {
 		cd := el.CreateElement(x + "CipherData")
 		v := cd.CreateElement(x + "CipherValue")
 		switch e.cv {
@@ -512,6 +523,8 @@ func runC11(c *Ctx) {
 		add("key_type", 1, &eel{method: strp(a.uri), cv: cvBytes, cvBytes: valid, prefix: true}, map[string]string{"kt": "rsa"})
 		// element mutations
 		add("no_cipherdata", key, &eel{method: strp(a.uri), cv: cvAbsent, prefix: true}, nil)
+		add("cipherdata_without_value", key, &eel{method: strp(a.uri), cv: cvNoValue, prefix: true}, nil)
+		add("cipherdata_with_reference", key, &eel{method: strp(a.uri), cv: cvReference, prefix: true}, nil)
 		add("bad_base64", key, &eel{method: strp(a.uri), cv: cvBad, prefix: true}, nil)
 	}
 	key16 := randBytes(c, 16)
@@ -871,10 +884,13 @@ func runC10(c *Ctx) {
 				iv := randBytes(c, a.bs)
 				ct = append(append([]byte{}, iv...), rawCBCEnc(a, key, iv, w3cPad(c, plain, a.bs, true))...)
 			}
-			e := &eel{method: strp(a.uri), cv: cvBytes, cvBytes: ct, prefix: true}
-			obs, out := implDecrypt(key, e.xml("EncryptedData"))
-			interop("ref_to_pkg_block", map[string]string{"alg": a.name, "op": "interop_decrypt"}, strings.HasPrefix(obs, "(DOk") && bytes.Equal(out, plain),
-				map[string]any{"alg": a.uri, "len": n}, strings.SplitN(obs, " ", 2)[0])
+			// a peer writes the element with whatever prefixes it likes: xenc:, another prefix, the default namespace
+			for ri, rend := range []string{"xenc-prefix", "other-prefix", "default-namespace"} {
+				e := &eel{method: strp(a.uri), cv: cvBytes, cvBytes: ct, prefix: ri < 2, alt: ri == 1}
+				obs, out := implDecrypt(key, e.xml("EncryptedData"))
+				interop("ref_to_pkg_block", map[string]string{"alg": a.name, "op": "interop_decrypt", "rendering": rend}, strings.HasPrefix(obs, "(DOk") && bytes.Equal(out, plain),
+					map[string]any{"alg": a.uri, "len": n, "rendering": rend}, strings.SplitN(obs, " ", 2)[0])
+			}
 			// package -> reference
 			el, cls := implEncrypt(a.impl, key, plain, nil)
 			good := false
@@ -923,7 +939,8 @@ func runC10(c *Ctx) {
 			if ta.name == "Pkcs1v15" {
 				ek.dg = nil
 			}
-			obs, out := implDecrypt(rsaKey(1), (&eel{method: strp(a0.uri), cv: cvBytes, cvBytes: dataCT, inner: ek, prefix: true}).xml("EncryptedData"))
+			ek.alt = (ti+di)%2 == 1
+			obs, out := implDecrypt(rsaKey(1), (&eel{method: strp(a0.uri), cv: cvBytes, cvBytes: dataCT, inner: ek, prefix: true, alt: ek.alt}).xml("EncryptedData"))
 			mgf := "mgf_sha1_is_label_hash"
 			if ta.name != "Pkcs1v15" && di != 0 {
 				mgf = "mgf_sha1_differs_from_label_hash"
